@@ -685,3 +685,9 @@ package model
 //@   property C15 C07
 //@   nopanic
 //@   ensures [identity] result == value
+
+// ---- the response entry of a bias: name and probability echoed, props = what the bias reported (null when it did not fire)
+//@ func UpdateBiasesProps
+//@   property C08 C09
+//@   nopanic
+//@   ensures [echo_with_report] fresh(result) && result.Name == oldProps.Name && result.ApplyProbability == oldProps.ApplyProbability && result.Props == update && !result.Disabled
